@@ -184,3 +184,50 @@ func (c *Ctx) WithSummariesFrom(base Subst, pred AtomPred) func(b *ssa.BasicBloc
 	}
 	return func(b *ssa.BasicBlock, i int, a *an.Atom) bool { return judge(a, base, 0) }
 }
+
+// ResVal is a value a helper can return, with the substitution that maps the helper's parameters to the call's arguments.
+type ResVal struct {
+	Val ssa.Value
+	Sub Subst
+	Ret *ssa.Return
+}
+
+// HelperResults looks through a value that is (a component of) the result of a static call of a module helper: it returns
+// the non-nil values the helper can return in that position. ok=false if v is not such a value.
+func HelperResults(v ssa.Value) (out []ResVal, ok bool) {
+	idx := 0
+	var call *ssa.Call
+	switch x := v.(type) {
+	case *ssa.Extract:
+		c2, isCall := x.Tuple.(*ssa.Call)
+		if !isCall {
+			return nil, false
+		}
+		call, idx = c2, x.Index
+	case *ssa.Call:
+		call = x
+	default:
+		return nil, false
+	}
+	f := call.Call.StaticCallee()
+	if f == nil || !prog.InModule(f) || f.Blocks == nil || call.Call.IsInvoke() {
+		return nil, false
+	}
+	sub := Subst{}
+	for i, p := range f.Params {
+		if i < len(call.Call.Args) {
+			sub[p] = call.Call.Args[i]
+		}
+	}
+	for _, ret := range an.Returns(f) {
+		if idx >= len(ret.Results) {
+			return nil, false
+		}
+		r := an.Result(ret, idx)
+		if k, isK := r.(*ssa.Const); isK && k.Value == nil {
+			continue // nil
+		}
+		out = append(out, ResVal{Val: r, Sub: sub, Ret: ret})
+	}
+	return out, true
+}
